@@ -108,11 +108,36 @@ func genQCfg(rc *RunCtx) QCfg {
 		c.Topics = append([]string(nil), c.Topics...)
 		c.Topics[1] = "t0" + nr.PickS(".", "_", "-", ".") + "c0"
 	}
+	// random steering (own stream): the first goroutine to arrive (for the n-th time) at a synchronisation
+	// point of function F is held back until some goroutine has passed one of function G - a whole other
+	// operation fits into the window, and the window closes as soon as that operation has happened
+	if sr := NewPRNG(rc.Seed ^ 0x57ee7); len(c.Steer) == 0 && sr.Chance(1, 3) {
+		fn := func() string { return steerFuncs[sr.Intn(len(steerFuncs))] + "*" }
+		c.Steer = []SteerRule{{Hold: fn(), Until: fn(), MaxSpin: sr.Pick(300, 3000, 20000), Nth: sr.Range(1, 6)}}
+	}
 	// long delays of one goroutine per step (own stream: the rest of the configuration of a seed is unchanged)
 	lr := NewPRNG(rc.Seed ^ 0x10c6de1a)
 	c.LongProb = uint32(lr.Pick(0, 0, 40, 160, 600))
 	c.LongSpin = lr.Pick(40, 300, 2500)
 	return c
+}
+
+// steerFuncs: the functions between whose synchronisation points the windows of the queue properties lie
+// (in-flight bookkeeping, per-client counters, delivery and topic pumps, registry changes, shutdown). A name
+// that no longer exists in the tree under test simply never matches.
+var steerFuncs = []string{
+	"nsqd.clientV2.FinishedMessage", "nsqd.clientV2.RequeuedMessage", "nsqd.clientV2.TimedOutMessage", "nsqd.clientV2.SendingMessage",
+	"nsqd.clientV2.Empty", "nsqd.clientV2.SetReadyCount", "nsqd.clientV2.IsReadyForMessages", "nsqd.clientV2.tryUpdateReadyState",
+	"nsqd.Channel.FinishMessage", "nsqd.Channel.RequeueMessage", "nsqd.Channel.TouchMessage", "nsqd.Channel.StartInFlightTimeout",
+	"nsqd.Channel.StartDeferredTimeout", "nsqd.Channel.popInFlightMessage", "nsqd.Channel.removeFromInFlightPQ", "nsqd.Channel.pushInFlight",
+	"nsqd.Channel.put", "nsqd.Channel.PutMessage", "nsqd.Channel.PutMessageDeferred", "nsqd.Channel.Empty", "nsqd.Channel.initPQ",
+	"nsqd.Channel.processInFlightQueue", "nsqd.Channel.processDeferredQueue", "nsqd.Channel.exit", "nsqd.Channel.flush",
+	"nsqd.Channel.AddClient", "nsqd.Channel.RemoveClient", "nsqd.Channel.Pause", "nsqd.Channel.doPause",
+	"nsqd.protocolV2.messagePump", "nsqd.protocolV2.FIN", "nsqd.protocolV2.REQ", "nsqd.protocolV2.SUB", "nsqd.protocolV2.IOLoop", "nsqd.protocolV2.Send",
+	"nsqd.Topic.messagePump", "nsqd.Topic.PutMessage", "nsqd.Topic.PutMessages", "nsqd.Topic.put", "nsqd.Topic.exit", "nsqd.Topic.flush", "nsqd.Topic.Empty",
+	"nsqd.Topic.GetChannel", "nsqd.Topic.getOrCreateChannel", "nsqd.Topic.DeleteExistingChannel", "nsqd.Topic.doPause", "nsqd.Topic.GenerateID",
+	"nsqd.NSQD.GetTopic", "nsqd.NSQD.DeleteExistingTopic", "nsqd.NSQD.Exit", "nsqd.NSQD.PersistMetadata", "nsqd.NSQD.Notify", "nsqd.NSQD.queueScanWorker",
+	"nsqd.tcpServer.Handle", "nsqd.tcpServer.Close",
 }
 
 func qWeightsFor(prop string, r *PRNG) qWeights {
@@ -297,6 +322,9 @@ func genQOps(rc *RunCtx, c QCfg) []Op {
 		}
 		if (rc.Prop == "C01" || rc.Prop == "ALL" || rc.Prop == "C08") && r.Chance(1, 25) {
 			add(Op{Kind: "createpub", A: int64(r.Intn(8)), B: int64(r.Intn(8)), C: int64(r.Intn(4))})
+		}
+		if (rc.Prop == "C03" || rc.Prop == "C13" || rc.Prop == "C08" || rc.Prop == "ALL") && r.Chance(1, 30) {
+			add(Op{Kind: "ackempty", A: int64(r.Intn(16)), B: int64(r.Intn(2)), C: int64(r.Intn(8))})
 		}
 		if o.Kind == "admin" && (o.S == "delete_channel" || o.S == "delete_topic") && (rc.Prop == "C08" || rc.Prop == "ALL") && r.Chance(1, 3) {
 			// the same object is asked for again while its deletion is still running
@@ -660,6 +688,38 @@ func (w *qWorld) exec(op Op) {
 			w.pending = append(w.pending, f)
 		}
 		w.rc.Probe("publish_right_after_channel_creation")
+		w.settle()
+		w.afterSettle()
+		return
+	case "ackempty":
+		// The window the C03/C13 anchors name: an acknowledgement between taking the message out of the
+		// in-flight set and adjusting the connection's in-flight count, with the channel emptied and the
+		// next message handed to that connection in between. The FIN/REQ handler is held at the count
+		// adjustment until a delivery to some connection has been counted (or it gives up).
+		w.settleIfBurst()
+		co := w.liveConsumer(op.A)
+		if co == nil || co.Closing || len(heldOf(co)) == 0 || w.rc.Sched == nil {
+			return
+		}
+		saved := w.rc.Sched.Rules
+		hold := []string{"nsqd.clientV2.FinishedMessage*", "nsqd.clientV2.RequeuedMessage*"}[op.B%2]
+		w.rc.Sched.Rules = []*simrt.Rule{{Hold: hold, Until: "nsqd.clientV2.SendingMessage*", MaxSpin: 20000, OneShot: true}}
+		w.inBurst = true
+		w.opAnswer(Op{Uid: op.Uid*16 + 1, Kind: []string{"fin", "req"}[op.B%2], A: op.A, B: op.C})
+		if f := w.opAdmin(Op{Uid: op.Uid*16 + 2, Kind: "admin", S: "empty_channel", A: w.topicIdx(co.Topic), B: w.chanIdx(co.Channel)}); f != nil {
+			w.pending = append(w.pending, f)
+		}
+		if f := w.opPub(Op{Uid: op.Uid*16 + 3, Kind: "pub", B: w.topicIdx(co.Topic), C: 0}); f != nil {
+			w.pending = append(w.pending, f)
+		}
+		w.settle()
+		w.afterSettle()
+		w.rc.Sched.Rules = saved
+		w.rc.Probe("steered_acknowledgement_vs_empty")
+		// the next message: with a count that lost a message the connection gets it beyond its RDY
+		if f := w.opPub(Op{Uid: op.Uid*16 + 4, Kind: "pub", B: w.topicIdx(co.Topic), C: 0}); f != nil {
+			w.pending = append(w.pending, f)
+		}
 		w.settle()
 		w.afterSettle()
 		return
